@@ -16,13 +16,14 @@ theorem totalU_join_right {A B : List UCoin} {w : Wid} (h : ∀ u ∈ A, u.walle
   rw [totalU_append, totalU_zero h, Nat.zero_add]
 
 /-- **disconnecting the tip block ABOVE the cursor of the wallet being restored**, other wallets followed live -/
-theorem disconnect_scanJS_above {c : Ctx} {w : Wid} {s : Store} {chain : List Block} {b : Block} {k : Nat} {ws : WStatus}
+theorem disconnect_scanJS_above' {c : Ctx} {w : Wid} {s : Store} {chain : List Block} {b : Block} {k : Nat}
     (hKN : KeysNodup c.own) (hV : ChainValid c.own (chain ++ [b])) (hH : HeightsOK (chain ++ [b])) (hne : chain ≠ [])
-    (hkn : AMap.get c.node.known b.id = some b) (hS : ScanJS c w s (chain ++ [b]) k)
-    (hst : AMap.get s.status w = some ws) (hk : ws.synced = some k) (hlt : k + 1 ≤ chain.length)
+    (hkn : AMap.get c.node.known b.id = some b) (hS : ScanJS c w s (chain ++ [b]) k) (hlt : k + 1 ≤ chain.length)
     (hAR : AllReady (ownR c.own w) (readyWallets s c.wallets)) :
     ∃ s', disconnectBlock c s b.height = .ok s' ∧ ScanJS c w s' chain k ∧
-      AMap.get s'.status w = some ws ∧ (∀ l, readyWallets s' l = readyWallets s l) := by
+      s'.status = s.status.map (pullBack (b.height - 1)) ∧
+      (∀ x ws, AMap.get s.status x = some ws → ws.synced = none → AMap.get s'.status x = some ws) ∧
+      (∀ l, readyWallets s' l = readyWallets s l) := by
   have hOr := ownR_sub hKN w
   have hOw := ownW_sub hKN w
   have hbh : b.height = chain.length := heightsOK_mid hH
@@ -98,13 +99,6 @@ theorem disconnect_scanJS_above {c : Ctx} {w : Wid} {s : Store} {chain : List Bl
       have := hAR a w' ch this
       rw [List.contains_iff_mem] at this ⊢
       exact List.mem_cons_of_mem _ this
-  have hnr : (readyWallets s c.wallets).contains w = false := by
-    cases hc : (readyWallets s c.wallets).contains w with
-    | false => rfl
-    | true =>
-      have := ((ready_contains_iff s c.wallets w).1 hc).2
-      rw [hst] at this
-      simp [hk] at this
   have hbalAll : AgreeBal (w :: readyWallets s c.wallets) s.balance
       (joinBook (bookOf c.p (ownW c.own w) (chain.take (k + 1))) (bookOf c.p (ownR c.own w) (chain ++ [b]))) := by
     intro w' hw'
@@ -167,7 +161,7 @@ theorem disconnect_scanJS_above {c : Ctx} {w : Wid} {s : Store} {chain : List Bl
     agreeJ_symm (kX := fun x => decide (x ≠ w)) (kY := fun x => decide (x = w))
       (by intro w' hw'; simpa using hw') hSwC hSrC hTwC hTrC hA2
   have hTP : TxPos (occs chain) s' := txPos_of_agreeJ hA3 hTrC hTwC
-  refine ⟨s', hd, ⟨hA3, ?_, hTP, ?_, ?_, ?_, ?_⟩, ?_, hrdy⟩
+  refine ⟨s', hd, ⟨hA3, ?_, hTP, ?_, ?_, ?_, ?_⟩, by rw [e10, hstat1], ?_, hrdy⟩
   · -- block records
     intro h'
     rw [e6, hbl1 h']
@@ -215,9 +209,23 @@ theorem disconnect_scanJS_above {c : Ctx} {w : Wid} {s : Store} {chain : List Bl
   · intro h'
     rw [e8, hsy1]; exact sync_erase_tip hbh hS.sync h'
   · rw [e9]; omega
-  · rw [e10, pullBack_get, hstat1, hst]
-    simp only [Option.map_some, hk]
-    have hgt : ¬ k > b.height - 1 := by omega
-    simp only [hgt, if_false]
+  · intro x ws hx hn
+    rw [e10, hstat1]; exact pullBack_get_none hx hn
+
+/-- `disconnect_scanJS_above'` for a wallet being restored: its cursor stays -/
+theorem disconnect_scanJS_above {c : Ctx} {w : Wid} {s : Store} {chain : List Block} {b : Block} {k : Nat} {ws : WStatus}
+    (hKN : KeysNodup c.own) (hV : ChainValid c.own (chain ++ [b])) (hH : HeightsOK (chain ++ [b])) (hne : chain ≠ [])
+    (hkn : AMap.get c.node.known b.id = some b) (hS : ScanJS c w s (chain ++ [b]) k)
+    (hst : AMap.get s.status w = some ws) (hk : ws.synced = some k) (hlt : k + 1 ≤ chain.length)
+    (hAR : AllReady (ownR c.own w) (readyWallets s c.wallets)) :
+    ∃ s', disconnectBlock c s b.height = .ok s' ∧ ScanJS c w s' chain k ∧
+      AMap.get s'.status w = some ws ∧ (∀ l, readyWallets s' l = readyWallets s l) := by
+  obtain ⟨s', hd, hS', hstat, _, hrdy⟩ := disconnect_scanJS_above' hKN hV hH hne hkn hS hlt hAR
+  refine ⟨s', hd, hS', ?_, hrdy⟩
+  have hbh : b.height = chain.length := heightsOK_mid hH
+  rw [hstat, pullBack_get, hst]
+  simp only [Option.map_some, hk]
+  have hgt : ¬ k > b.height - 1 := by omega
+  simp only [hgt, if_false]
 
 end MW.Lemmas.ImportJoin
